@@ -201,6 +201,8 @@ class SimKernel:
         self.beh_for = lambda argv, n: {}     # behaviour chooser (argv, spawn_no)
         self.kids_for = lambda argv, n: []    # children spec chooser
         self.spawn_fail = set()  # spawn attempt numbers that raise OSError
+        self.pipe_files = []     # read ends handed to circus (closed with the world if circus did not)
+        self.pipes = []          # [write fd, set of pids holding it open]: a pipe is at EOF when nobody holds it
         self.spawn_attempts = 0
         self.kill_latency = 0.0  # delay between SIGKILL and the process being a zombie
         self.call_names = []     # optional record of boundary names
@@ -225,10 +227,37 @@ class SimKernel:
                 if p.state == 'running' and p.death_at is not None and p.death_at <= now:
                     p.state = 'zombie' if (p.ppid == DAEMON_PID) else 'gone'
                     p.exit_t = p.death_at
+                    self._release_pipes(p.pid)
                     self.log.append((p.death_at, 'exit', p.pid, p.status, p.cause))
                     for c in self.procs.values():
                         if c.ppid == p.pid:
                             c.ppid = 1      # re-parented to init, keeps running
+
+    def _release_pipes(self, pid):
+        for ent in self.pipes:
+            if pid in ent[1]:
+                ent[1].discard(pid)
+                if not ent[1] and ent[0] is not None:
+                    try:
+                        os.close(ent[0])
+                    except OSError:
+                        pass
+                    ent[0] = None
+
+    def close_pipes(self):
+        for ent in self.pipes:
+            if ent[0] is not None:
+                try:
+                    os.close(ent[0])
+                except OSError:
+                    pass
+                ent[0] = None
+        for f in self.pipe_files:
+            try:
+                f.close()
+            except OSError:
+                pass
+        self.pipe_files = []
 
     def schedule_death(self, p, delay, status, cause):
         t = self.clock.now + delay
@@ -360,6 +389,31 @@ class SimKernel:
         return out
 
 
+class RedirOs:
+    """stand-in for `os` inside circus.stream.redirector: a read on a pipe that is empty while somebody still holds
+    its write end would block the daemon's only thread for ever -- reported as a stall instead of hanging the run"""
+
+    def read(self, fd, n):
+        w = _CUR
+        if w is not None:
+            import select as _select
+            try:
+                ready = _select.select([fd], [], [], 0)[0]
+            except (OSError, ValueError):
+                ready = [fd]
+            if not ready:
+                site = '<-'.join(_circus_stack()) or 'os.read'
+                if w.stalled is None:
+                    w.stalled = {'site': 'os.read@' + site, 't': round(w.clock.now - EPOCH, 4), 'pid': None,
+                                 't_block': w.clock.now,
+                                 'why': 'blocking read on an empty pipe whose write end is still held open'}
+                raise Stalled('os.read')
+        return os.read(fd, n)
+
+    def __getattr__(self, n):
+        return getattr(os, n)
+
+
 class SimOs:
     """stand-in for `os` inside circus.watcher / circus.arbiter / circus.controller"""
 
@@ -425,13 +479,17 @@ class SimPopen:
         self.pid = p.pid
         self.returncode = None
         self.stdout = self.stderr = None
-        # stdout/stderr=PIPE: hand circus a real (already at EOF) pipe so that its redirector code runs
+        # stdout/stderr=PIPE: hand circus a real pipe so that its redirector code runs.  Nothing is ever written to
+        # it; the write end stays open for as long as the worker or one of the descendants it had at spawn time
+        # (they inherit the descriptor) is alive, then the pipe is at EOF -- as with real processes
         from subprocess import PIPE
         for attr, val in (('stdout', stdout), ('stderr', stderr)):
             if val == PIPE:
                 r, w_ = os.pipe()
-                os.close(w_)
+                holders = {p.pid} | set(d for d in k.descendants(p.pid) if k.procs[d].state == 'running')
+                k.pipes.append([w_, holders])
                 setattr(self, attr, os.fdopen(r, 'rb', 0))
+                k.pipe_files.append(getattr(self, attr))
         self._gone = False
 
     def poll(self):
@@ -630,6 +688,8 @@ def install():
     circus.arbiter.os = simos
     circus.controller.os = simos
     circus.process.Popen = SimPopen
+    import circus.stream.redirector
+    circus.stream.redirector.os = RedirOs()
     circus.controller.zmqstream = types.SimpleNamespace(ZMQStream=FakeStream)
     circus.controller.SysHandler = NoSysHandler
 
@@ -692,7 +752,7 @@ class World:
         global _CUR
         _AUDIT['on'] = False
         try:
-            self.loop.close(all_fds=True)
+            self.loop.close(all_fds=False)
         except Exception:
             pass
         try:
@@ -700,6 +760,7 @@ class World:
                 self.aloop.close()
         except Exception:
             pass
+        self.kernel.close_pipes()
         asyncio.set_event_loop(None)
         if _CUR is self:
             _CUR = None
